@@ -377,6 +377,10 @@ Definition dup_one (d : idist) : idist :=
   IDist (d_name d) (d_id d) (d_kind d) (d_unique d) (d_diff d) (d_nb d)
         (firstn (d_nb d) (d_indexes d)) (repeat None (d_nb d)) (firstn (d_nb d * d_nb d) (d_values d)) false.
 Definition dup (t : topo) : topo := Topo (t_objs t) (t_levels t) (map dup_one (t_dists t)) (t_next_id t).
+(* the public hwloc_topology_dup: hwloc__topology_dup, then hwloc_topology_refresh of the
+   copy, whose object table is [tobjs] (same gp / os indexes as the original's) *)
+Definition topology_dup (t : topo) (tobjs : list obj) (levels : list N) : topo :=
+  refresh (Topo tobjs levels (map dup_one (t_dists t)) (t_next_id t)).
 
 (* one <distances2>/<distances2hetero> element read back: None = whole import fails (goto out),
    Some None = ignored *)
